@@ -20,6 +20,7 @@ type EVal struct {
 	GKey, GVal types.Type
 	IsNil bool
 	TypeName types.Type // expression denotes a type (for Type.Field)
+	Pkg   *types.Package // expression denotes an imported package
 }
 
 type Env struct {
@@ -93,8 +94,21 @@ func (e *Env) ghostDecl(name string) *GhostDecl {
 
 func ghostKey(name string) string { return "G_" + name }
 
+func (e *Env) ghostPkg(g *GhostDecl) *types.Package {
+	for path, sp := range e.s.P.specs {
+		for i := range sp.Ghosts {
+			if &sp.Ghosts[i] == g {
+				if pt := e.s.pkgTypes(path); pt != nil {
+					return pt
+				}
+			}
+		}
+	}
+	return e.pkg
+}
+
 func (e *Env) ghostVal(g *GhostDecl) EVal {
-	t := e.s.P.resolveTypeIn(e.pkg, e.spec, g.Type)
+	t := e.s.P.resolveTypeIn(e.ghostPkg(g), e.spec, g.Type)
 	if mt, ok := t.(*types.Map); ok {
 		so := ArrSort(sortOf(mt.Key()), sortOf(mt.Elem()))
 		return EVal{T: e.heap(ghostKey(g.Name), so), GKey: mt.Key(), GVal: mt.Elem()}
@@ -210,6 +224,19 @@ func (e *Env) ident(name string) EVal {
 			case *types.TypeName:
 				return EVal{TypeName: ob.Type()}
 			}
+		}
+	}
+	// imported package (for pkg.Type in frames)
+	if e.pkg != nil {
+		for _, imp := range e.pkg.Imports() {
+			if imp.Name() == name {
+				return EVal{Pkg: imp}
+			}
+		}
+	}
+	for path, sp := range e.s.P.pkgs {
+		if shortPkg(path) == name {
+			return EVal{Pkg: sp.Pkg}
 		}
 	}
 	fatalf("%s: unknown identifier %q in specification", e.s.name, name)
@@ -332,6 +359,19 @@ func fieldIndex(st *types.Struct, name string) int {
 
 func (e *Env) field(n *EField) EVal {
 	x := e.eval(n.X)
+	if x.Pkg != nil {
+		o := x.Pkg.Scope().Lookup(n.Name)
+		switch ob := o.(type) {
+		case *types.TypeName:
+			return EVal{TypeName: ob.Type()}
+		case *types.Const:
+			return e.constVal(ob)
+		case *types.Var:
+			key := "Glob_" + sanitize(shortPkgOr(x.Pkg.Path())) + "_" + n.Name
+			return EVal{T: Select(e.heap(key, ArrSort(SInt, sortOf(ob.Type()))), TZero), Ty: ob.Type()}
+		}
+		fatalf("%s: package %s has no %s", e.s.name, x.Pkg.Path(), n.Name)
+	}
 	if x.TypeName != nil {
 		// Type.Field: the whole field array (used in modifies / frame clauses)
 		t, st := structOf(x.TypeName)
